@@ -30,7 +30,7 @@ FUNCS = ['codegen.dumps_bdds_as_code', 'codegen.dumps_bdd_as_code', 'codegen._co
          'functions.make_functions']
 SOLVER_MS = 120000
 
-TOK = re.compile(r'\s*(?:(\(|\)|&&|\|\||!|=|;)|(out_bits\["[^"]+"\])|(bitvectors\["[^"]+"\]\[\d+\])|([A-Za-z_][A-Za-z_0-9\']*))')
+TOK = re.compile(r'\s*(?:(\(|\)|&&|\|\||!|=|;)|(out_bits\["[^"]+"\])|(bitvectors\["[^"]+"\](?:\[\d+\])?)|([A-Za-z_][A-Za-z_0-9\']*))')
 
 
 def read_code(code, atom):
@@ -258,10 +258,13 @@ def check_programs(seeds):
         body = '\n'.join(l[4:] for l in body.splitlines()[2:])
 
         def atom(t):
-            m = re.match(r'bitvectors\["([^"]+)"\]\[(\d+)\]', t)
+            m = re.match(r'bitvectors\["([^"]+)"\]\[(\d+)\]$', t)
             if m:
                 return bits(aut.vars[m.group(1)]['bitnames'][int(m.group(2))])
-            return bits(t)      # Boolean input referenced by name
+            m = re.match(r'bitvectors\["([^"]+)"\]$', t)
+            if m:
+                return bits(m.group(1))     # Boolean input
+            return bits(t)
         try:
             code_outs, nl = read_code(body, atom)
         except Exception as e:  # noqa
